@@ -79,6 +79,23 @@ def case_call(case):
             text = G.edited(text, [case["e"]])
         elif k == "d2":
             text = G.edited(text, [case["e1"], case["e2"]])
+    elif k == "long":
+        # one line of a base input made longer than the engine's initial line buffers (comment, blanks or a long token)
+        ls = G.lines_of(G.base_text(case["base"]) if case["base"] != "minidb" else G.read("minidb.dat"))
+        body = ls[case["line"]].rstrip("\r\n")
+        how, n = case["how"], case["n"]
+        if how == "comment":
+            body = body + " # " + "c" * max(0, n - len(body) - 3)
+        elif how == "blanks":
+            body = body + " " * max(0, n - len(body))
+        elif how == "token":
+            body = body + " " + "T" * max(0, n - len(body) - 1)
+        elif how == "lead":
+            body = " " * max(0, n - len(body)) + body
+        ls[case["line"]] = body + "\n"
+        text = G.join(ls)
+        if case["base"] == "minidb":
+            via = "db" if via == "str" else "dbfile"
     elif k == "ent":
         text = G.entity_texts()[case["i"]][1]
     elif k == "gram":
@@ -621,6 +638,23 @@ def basic_cases(stride=1):
     return [{"k": "basic", "h": h, "p": p, "n": n} for h, p, n in G.basic_truncations() if n % stride == 0]
 
 
+LONG_N = [4095, 4096, 4097, 8200]      # around the initial buffer size and beyond its first doubling
+
+
+def long_cases(bases, sizes, hows=("comment", "blanks", "token", "lead"), vias=("str", "file")):
+    out = []
+    for b in bases:
+        text = G.base_text(b) if b != "minidb" else G.read("minidb.dat")
+        for i, l in enumerate(G.lines_of(text)):
+            if not l.strip():
+                continue
+            for how in hows:
+                for n in sizes:
+                    for via in vias:
+                        out.append({"k": "long", "base": b, "line": i, "how": how, "n": n, "via": via})
+    return out
+
+
 def tiny_cases(maxlen):
     return [{"k": "tiny", "s": s, "as": a} for a in ("str", "db", "runfile-name", "loaddb-name") for s in G.tiny_strings(maxlen)]
 
@@ -691,6 +725,8 @@ def bounds(tier):
             ("database text: mini database, every line deleted (string) / truncated after every line (file)", db_cases("quick"), 4),
             ("truncated BASIC: every prefix of program 1 in USER_PRINT and CALCULATE_VALUES", [c for c in basic_cases() if c["p"] == 0 and c["h"] in ("user_print", "calc")], 8),
             ("truncated BASIC with the file sinks on: every prefix of program 1 in USER_PUNCH", [dict(c, files=1) for c in basic_cases() if c["p"] == 0 and c["h"] == "user_punch"], 8),
+            ("long lines: every line of the base input sol and of the mini database x {trailing comment, trailing blanks, extra long token, leading blanks} x total length {4096, 8200} x {string, file}",
+             long_cases(["sol", "minidb"], [4096, 8200]), 8),
             ("D1: every single deviation of the base inputs %s" % G.QUICK_D1, d1_cases(G.QUICK_D1), 8),
         ]
     return [
@@ -701,6 +737,8 @@ def bounds(tier):
         ("grammar blocks: every keyword x header variant, every (keyword, option) x argument in %r" % G.GRAM_ARGS, gram_cases(), 16),
         ("truncated BASIC: every prefix of %d programs in 4 hosts" % len(G.BASIC_PROGRAMS), basic_cases(), 16),
         ("truncated BASIC with the file sinks on: every prefix of %d programs in USER_PUNCH and RATES" % len(G.BASIC_PROGRAMS), [dict(c, files=1) for c in basic_cases() if c["h"] in ("user_punch", "rates")], 16),
+        ("long lines: every line of the base inputs sol, eq, kinq, out, basfn and of the mini database x {trailing comment, trailing blanks, extra long token, leading blanks} x total length %s x {string, file}" % LONG_N,
+         long_cases(["sol", "eq", "kinq", "out", "basfn", "minidb"], LONG_N), 16),
         ("D1: every single deviation of all %d base inputs (RunString)" % len(G.BASES), d1_cases(G.BASES), 16),
         ("D1 via RunFile: every line deletion and every truncation after a line of all base inputs", [dict(c, via="file") for c in d1_cases(G.BASES) if c["e"][0] in ("dl", "tl")], 16),
         ("database text D1: every single deviation of the mini database (string; file without replacements); phreeqc.dat every line deleted, truncated every 997 bytes", db_cases("thorough"), 8),
